@@ -148,7 +148,9 @@ def _polygon(ctx):
             why = 'term = %s' % got.canon()[:200]
         rep.check(ok, 'R4', 'edge-term-is-half-sin-times-radii', where(ab), '1/2 * sin(2*pi / items.len()) * |start| * |end|', why)
         rep.check(ok, 'R4', 'angle-term-is-sin-2pi-over-n', where(ab), 'the angle factor of the term is sin(2*pi / items.len())', why)
-    # from_radial parametrisation
+    # from_radial parametrisation (nest form with collect() read as a fill loop: a `for` with push and a
+    # `.map(|..| Line2::new(..)).collect()` are the same loop)
+    fr = f.nest_form(fr, yields=False, collects=True)
     tr = Tracer(fr)
     cfg = CFG(fr)
     loops = for_loops(fr, cfg, tr)
